@@ -148,7 +148,7 @@ func TestReplayC05(t *testing.T) {
 // ---- C07
 
 func recC07() *vkit.Recorder {
-	r := vkit.Rec("C07", "exploration", "single-cycle scenarios biased to shard lists mixing idle-expired, idle-fresh, loaded, unready and out-of-sync shards in all positions; a directed family 'loaded shards whose settled targets fit nowhere, expired idle shards at the tail', and 2-3 cycle histories; one scenario in six has a second replica in front of or behind the first whose shard listing or scaling may fail; every ChangeScale argument of the execution is judged; non-trivial = >=1 idle-expired in-sync shard or a request different from the current count; distinct = scenario digest")
+	r := vkit.Rec("C07", "exploration", "single-cycle scenarios biased to shard lists mixing idle-expired, idle-fresh, loaded, unready and out-of-sync shards in all positions; a directed family 'loaded shards whose settled targets fit nowhere, expired idle shards at the tail', a family with 11-14 shards (identifier order differs from ordinal order), and 2-3 cycle histories; one scenario in six has a second replica in front of or behind the first whose shard listing or scaling may fail; every ChangeScale argument of the execution is judged; non-trivial = >=1 idle-expired in-sync shard or a request different from the current count; distinct = scenario digest")
 	r.Assume(cycAssume, "min <= max (statement); idle-since is 1000h in the past (expired), in the future (certainly not expired), or - with a max-idle-time that is not a whole number of seconds - 400 ms short of max-idle-time when the execution starts; such a shard is judged as not expired only if the cycle was over before it expired")
 	return r
 }
@@ -196,13 +196,42 @@ func genTailScenario(t *rapid.T) *Scenario {
 	return sc
 }
 
+// genManyShards: 11-14 shards (with <name>-<ordinal> identifiers the string order differs from the ordinal order from
+// eleven on), scale-down on, the last shard in use, idle-expired shards in front of it.
+func genManyShards(t *rapid.T) *Scenario {
+	sc := &Scenario{Opt: Options{MaxProc: 1000, IdleOn: true, Max: 999999, Min: int32(rapid.IntRange(0, 2).Draw(t, "min"))}}
+	n := rapid.IntRange(11, 14).Draw(t, "shards")
+	rs := ReplicaSpec{}
+	hash := uint64(1)
+	for i := 0; i < n; i++ {
+		sp := ShardSpec{Ready: true, StatusOK: true, Runtime1OK: true, HashEqual: true, Push: "ok", Runtime2OK: true, Idle: "expired"}
+		loaded := i == n-1 || rapid.IntRange(0, 2).Draw(t, fmt.Sprintf("s%d-loaded", i)) == 0
+		if i >= n-3 && i < n-1 {
+			loaded = rapid.IntRange(0, 3).Draw(t, fmt.Sprintf("s%d-loadedNearTail", i)) == 0
+		}
+		if loaded {
+			// too big to be moved anywhere else in this cycle together with the others
+			sc.Targets = append(sc.Targets, TargetSpec{Hash: hash, Job: "j0", Explore: "good", Series: 700, Total: 700})
+			sp.Held = append(sp.Held, Held{Hash: hash, Health: "up", Times: uint64(rapid.IntRange(0, 6).Draw(t, fmt.Sprintf("s%d-times", i))), Series: 700, Total: 700})
+			hash++
+		}
+		rs.Shards = append(rs.Shards, sp)
+	}
+	sc.Replicas = []ReplicaSpec{rs}
+	sc.RandSeed = int64(rapid.IntRange(1, 1<<30).Draw(t, "randSeed"))
+	return sc
+}
+
 func TestC07(t *testing.T) {
 	rec := recC07()
 	rapid.Check(t, func(t *rapid.T) {
 		b := biasC07()
 		b.SmallSizes = rapid.Bool().Draw(t, "smallSizes")
 		var sc *Scenario
-		if rapid.IntRange(0, 4).Draw(t, "tailScenario") == 0 {
+		if ms := rapid.IntRange(0, 29).Draw(t, "manyShards"); ms == 13 || ms == 19 {
+			sc = genManyShards(t)
+			rec.Class("eleven-or-more-shards")
+		} else if rapid.IntRange(0, 4).Draw(t, "tailScenario") == 0 {
 			sc = genTailScenario(t)
 		} else {
 			sc = Gen(t, b)
